@@ -24,6 +24,7 @@ import (
 	"strconv"
 	"strings"
 	"sync"
+	"syscall"
 	"time"
 
 	"golang.org/x/tools/go/packages"
@@ -427,6 +428,7 @@ func coordinate(prog *ssa.Program, hf *ssa.Function, base interp.Options, newSol
 			defer wg.Done()
 			cmd := exec.Command(os.Args[0], args...)
 			cmd.Stderr = os.Stderr
+			cmd.SysProcAttr = &syscall.SysProcAttr{Pdeathsig: syscall.SIGKILL}
 			in, _ := cmd.StdinPipe()
 			outp, _ := cmd.StdoutPipe()
 			if err := cmd.Start(); err != nil {
